@@ -13,6 +13,7 @@ import numpy as np
 
 from rv import core, fcsgen, layouts
 
+ANCHORS = ['read_fcs_data_segment', 'read_fcs_header_segment', 'FCSFile.__init__']      # functions the property is anchored in: never entered => inconclusive
 LEVEL = 'fault_enumeration'
 LEVEL_TEXT = 'Fault enumeration: truncation at every byte offset of files from the C01 lattice and single-field corruptions of $TOT/$PAR/$PnB/HEADER/TEXT offsets; the outcome must be an exception or the intact events and keywords (TEXT-extent damage judged against the C14 reference). Exhaustive over truncation points per file.'
 TECHNIQUE = 'fault enumeration (every truncation point, single-field corruptions) with an intact-or-raises oracle'
